@@ -530,3 +530,15 @@ func BodyContaining(fd *ast.FuncDecl, n ast.Node) *ast.BlockStmt {
 	}
 	return best
 }
+
+// EdgeFacts lists the atomic conditions established by taking successor si of block b
+// (empty when the block does not end in an if/for condition).
+func (fl *Flow) EdgeFacts(b, si int) []Fact {
+	c := fl.CondOf(b)
+	if c == nil || si > 1 {
+		return nil
+	}
+	var out []Fact
+	splitFacts(c, si == 0, Edge{b, si}, &out)
+	return out
+}
